@@ -425,17 +425,27 @@ Fixpoint val_eqb (a b : val) {struct a} : bool :=
   | _, _ => false
   end.
 
-(** runtime mapassign: find the slot of a key (Go key equality = structural
-    equality here; NaN keys are excluded by the well-formedness predicate) *)
+(** Go's == on map keys: structural, except that pointers are compared by
+    address - a pointer the decoder has just allocated equals no other pointer
+    (nil equals nil).  NaN keys are excluded by the well-formedness predicate. *)
+Fixpoint kcmp (a b : val) {struct a} : bool :=
+  match a, b with
+  | VPtr (Some _), VPtr (Some _) => false
+  | VStruct l, VStruct m =>
+    (fix eqb (l m : list val) := match l, m with [], [] => true | x :: l', y :: m' => kcmp x y && eqb l' m' | _, _ => false end) l m
+  | _, _ => val_eqb a b
+  end.
+
+(** runtime mapassign: find the slot of a key *)
 Fixpoint map_lookup (k : val) (m : list (val * val)) : option val :=
   match m with
   | [] => None
-  | (k', x) :: r => if val_eqb k k' then Some x else map_lookup k r
+  | (k', x) :: r => if kcmp k k' then Some x else map_lookup k r
   end.
 Fixpoint map_set (k x : val) (m : list (val * val)) : list (val * val) :=
   match m with
   | [] => [(k, x)]
-  | (k', y) :: r => if val_eqb k k' then (k', x) :: r else (k', y) :: map_set k x r
+  | (k', y) :: r => if kcmp k k' then (k', x) :: r else (k', y) :: map_set k x r
   end.
 
 (** MapCodec.readTagAndLength *)
